@@ -4,6 +4,8 @@ import (
 	"fmt"
 	"go/token"
 	"go/types"
+	"math/big"
+	"strings"
 
 	"golang.org/x/tools/go/ssa"
 )
@@ -102,7 +104,12 @@ func (ex *Exec) step(fr *Frame, st *State, ins ssa.Instruction) {
 		}
 		fr.env[x] = ex.freshVal(st, x.Type(), "index")
 	case *ssa.MakeInterface:
-		fr.env[x] = &IfaceV{Dyn: x.X.Type(), V: ex.val(fr, st, x.X)}
+		iv := &IfaceV{Dyn: x.X.Type(), V: ex.val(fr, st, x.X)}
+		if c, ok := x.X.(*ssa.Const); ok && c.Value != nil && implementsError(x.X.Type()) {
+			// a constant of an error type (syscall.ESRCH): one distinct constant per value
+			iv.Sym = errConstSym(x.X.Type(), c.Value.ExactString())
+		}
+		fr.env[x] = iv
 	case *ssa.ChangeInterface:
 		fr.env[x] = ex.val(fr, st, x.X)
 	case *ssa.ChangeType:
@@ -274,6 +281,11 @@ func (ex *Exec) binop(fr *Frame, st *State, op token.Token, a, b Val, ta, tb typ
 		return ex.freshVal(st, rt, "binop")
 	}
 	signed := !isUnsignedType(ta)
+	if isBV(x.Sort) && x.Sort == y.Sort {
+		if r := foldBV(op, x, y, signed); r != nil {
+			return r
+		}
+	}
 	switch {
 	case isBV(x.Sort):
 		w := bvBits(x.Sort)
@@ -750,4 +762,47 @@ func (ex *Exec) lookup(fr *Frame, st *State, x *ssa.Lookup) Val {
 		}
 	}
 	return ex.freshVal(st, x.Type(), "lookup")
+}
+
+// foldBV folds arithmetic and comparisons on bit-vector literals.
+func foldBV(op token.Token, x, y *Term, signed bool) *Term {
+	a, w, ok1 := modelBV(x.S)
+	b, _, ok2 := modelBV(y.S)
+	if !ok1 || !ok2 || !strings.HasPrefix(x.S, "(_ bv") || !strings.HasPrefix(y.S, "(_ bv") {
+		return nil
+	}
+	toS := func(v *big.Int) *big.Int {
+		if signed && v.Bit(w-1) == 1 {
+			return new(big.Int).Sub(v, new(big.Int).Lsh(big.NewInt(1), uint(w)))
+		}
+		return v
+	}
+	as, bs := toS(a), toS(b)
+	boolT := func(c bool) *Term {
+		if c {
+			return TTrue
+		}
+		return TFalse
+	}
+	switch op {
+	case token.ADD:
+		return BVConst(new(big.Int).Add(as, bs), w, signed)
+	case token.SUB:
+		return BVConst(new(big.Int).Sub(as, bs), w, signed)
+	case token.MUL:
+		return BVConst(new(big.Int).Mul(as, bs), w, signed)
+	case token.LSS:
+		return boolT(as.Cmp(bs) < 0)
+	case token.LEQ:
+		return boolT(as.Cmp(bs) <= 0)
+	case token.GTR:
+		return boolT(as.Cmp(bs) > 0)
+	case token.GEQ:
+		return boolT(as.Cmp(bs) >= 0)
+	}
+	return nil
+}
+
+func errConstSym(t types.Type, val string) *Term {
+	return &Term{S: "econst!" + sanitizeName(shortType(t)) + "!" + sanitizeName(val), Sort: SErr}
 }
